@@ -305,8 +305,9 @@ def _is_allowed_peripheral(func_current, peripheral_previous, mfl_funcs):
         n_prev = []
     if not n_prev:
         return n == min(n_all)
-    n_index = n_all.index(n)
-    return n_index > 0 and n_all[n_index - 1] < n
+    # Only the next larger number of compartments can follow the ones already added
+    n_larger = [m for m in n_all if m > max(n_prev)]
+    return bool(n_larger) and n == min(n_larger)
 
 
 def _update_name_and_description(name, features, me):
